@@ -37,6 +37,8 @@ type stats struct {
 	DumpNs       int64                       `json:"dump_ns"`
 	SchedPoints  int64                       `json:"sched_points"`
 	JitterCases  int64                       `json:"jitter_cases"`
+	Watchdogs    int64                       `json:"watchdogs"`
+	CurrentCase  int64                       `json:"current_case"` // partial files only: the case the worker was executing
 }
 
 func newStats() *stats {
@@ -106,6 +108,7 @@ func (s *stats) merge(o *stats) {
 	s.DumpNs += o.DumpNs
 	s.SchedPoints += o.SchedPoints
 	s.JitterCases += o.JitterCases
+	s.Watchdogs += o.Watchdogs
 	for h, m := range o.Hist {
 		for b, n := range m {
 			s.CountN(h, b, n)
